@@ -30,14 +30,14 @@ theorem C11_table : RaceFree table = true := by decide
 
 theorem C11_closed : Closed table (unlocked table) = true := by decide
 
-/-- **no package-level variable holds a mutable object**: every object created at package level is made by one of the
-    allowed makers (error values, version descriptors, read-only tables, sync.Pool) — in particular no buffer, reader or
-    cache is shared behind the API by all users of the package (seed C11-i: a sentinel disk buffer) -/
 /-- **a file reader keeps nothing of what it hands out**: no method of WarcFileReader assigns a field except Close
     (which gives the input buffer back to its pool); a record returned by Next is referenced by its receiver alone (seed
     C11-g: a reader that remembers and later closes the record it returned) -/
 theorem C11_reader_keeps_nothing : table.readerFieldWrites.all (fun w => w == ("bufferedReader", "Close")) = true := by decide
 
+/-- **no package-level variable holds a mutable object**: every object created at package level is made by one of the
+    allowed makers (error values, version descriptors, read-only tables, sync.Pool) — in particular no buffer, reader or
+    cache is shared behind the API by all users of the package (seed C11-i: a sentinel disk buffer) -/
 theorem C11_pkg_objects : table.pkgObjects.all (fun o => allowedMakers.contains o.2.2) = true := by decide
 
 /-- every method that assigns a field of the per-file writer runs under writeLock on every call path from outside -/
